@@ -11,7 +11,8 @@ macro_rules! pstr_runner {
         pub fn $fname(case: &Case, full: bool, fill: u8, out: &mut String) {
             let toks: Vec<&str> = case.header.iter().map(|s| s.as_str()).collect();
             let size = kvn(&toks, "size");
-            let mut buf = Buf::new(size, 32, fill, 0, &|_| true);
+            let odd = kv(&toks, "odd").is_some();
+            let mut buf = Buf::new(size, 32, fill, 0, &move |a: usize| !odd || a % 2 == 1);
             if let Some(init) = kv(&toks, "init") {
                 let b = unhex(&init);
                 buf.bytes_mut()[..b.len()].copy_from_slice(&b);
